@@ -63,7 +63,7 @@ def run(out, drv, info):
                        'WF: every stored object is what its name says (damaged / substituted objects are C04)',
                        'a hand-made key file with a plaintext private section is outside "key graphs built by init and add-key" (Lean example in C06.lean)',
                        'CPython, json, cryptography, hashlib — modelled, not verified']
-    n_worlds, n_ops = (160, 10) if quick else (1400, 14)
+    n_worlds, n_ops = (260, 10) if quick else (1400, 14)
     changed = sorted(k for k in info.get('extract_notes', {}) if k.startswith(('access.', 'section:06_access')))
     if changed:      # a guard the model mirrors is no longer in the recognised shape: not a broken tie, but look harder (DESIGN §3.1)
         n_worlds *= 2
